@@ -44,7 +44,8 @@ theorem rel_completeTable {p : PState} (h : Rel p) (t : Nat) (es : List Entry)
             tables := fun l f hf => by
               show lookup (update p.d.tables t es) f.num = _
               rw [lookup_update, if_neg (hfresh l f hf)]; exact h.tables l f hf,
-            walMem := h.walMem, walImm := h.walImm, others := h.others, walMax := h.walMax }
+            walMem := h.walMem, walImm := h.walImm, others := h.others, walMax := h.walMax,
+            manLe := h.manLe }
 
 theorem rel_removeTable {p : PState} (h : Rel p) (t : Nat)
     (hfresh : ∀ l f, f ∈ lv p.s.levels l → f.num ≠ t) :
@@ -58,24 +59,26 @@ theorem rel_removeTable {p : PState} (h : Rel p) (t : Nat)
             tables := fun l f hf => by
               show lookup (erase p.d.tables t) f.num = _
               rw [lookup_erase, if_neg (hfresh l f hf)]; exact h.tables l f hf,
-            walMem := h.walMem, walImm := h.walImm, others := h.others, walMax := h.walMax }
+            walMem := h.walMem, walImm := h.walImm, others := h.others, walMax := h.walMax,
+            manLe := h.manLe }
 
 /-! ### write-ahead logs -/
 
 theorem mem_erase {α : Type} {l : List (Nat × α)} {n : Nat} {x : Nat × α} (hx : x ∈ erase l n) : x ∈ l := by
   unfold erase at hx; exact (List.mem_filter.mp hx).1
 
-theorem rel_removeWal {p : PState} (h : Rel p) (n : Nat) (hn : n < p.c.w0) :
+theorem rel_removeWal {p : PState} (h : Rel p) (n : Nat) (hn : n < p.c.manWal) :
     ok p.d (.removeWal n) = true ∧ Rel { s := p.s, d := apply p.d (.removeWal n), c := p.c } := by
   obtain ⟨r, _, hr, _, _, hw, _, _⟩ := rel_recover h
   have hle := w0_le_wal h
+  have hn0 : n < p.c.w0 := Nat.lt_of_lt_of_le hn h.manLe
   constructor
   · simp only [ok, hr, hw, decide_eq_true_eq]; exact hn
   · rw [apply_removeWal]
     refine { inv := h.inv, wf := ⟨h.wf.1, nodup_erase _ _ h.wf.2.1, h.wf.2.2⟩, cur := h.cur,
              edits := h.edits, tables := h.tables, walMem := ?_, walImm := ?_,
              others := fun x hx => h.others x (mem_erase hx),
-             walMax := fun x hx => h.walMax x (mem_erase hx) }
+             walMax := fun x hx => h.walMax x (mem_erase hx), manLe := h.manLe }
     · obtain ⟨bs, hl, hm⟩ := h.walMem
       refine ⟨bs, ?_, hm⟩
       show lookup (erase p.d.wals n) p.c.wal = _
@@ -137,7 +140,7 @@ theorem rel_appendWal {p : PState} (h : Rel p) (ops : List (Bytes × Option Byte
   have hle := w0_le_wal h
   constructor
   · simp only [ok, hr, hw, Bool.and_eq_true, decide_eq_true_eq, List.all_eq_true, Bool.or_eq_true]
-    refine ⟨⟨⟨?_, ?_⟩, hle⟩, ?_⟩
+    refine ⟨⟨⟨?_, ?_⟩, Nat.le_trans h.manLe hle⟩, ?_⟩
     · simp only [walNumbers, List.contains_eq_mem, decide_eq_true_eq, List.mem_map]
       exact ⟨(p.c.wal, bs), mem_of_lookup _ _ _ hl, rfl⟩
     · intro x hx
@@ -151,7 +154,7 @@ theorem rel_appendWal {p : PState} (h : Rel p) (ops : List (Bytes × Option Byte
     simp only [Option.getD_some]
     refine { inv := write_inv' h.inv ops, wf := ⟨h.wf.1, nodup_update _ _ _ h.wf.2.1, h.wf.2.2⟩,
              cur := h.cur, edits := h.edits, tables := h.tables, walMem := ?_, walImm := ?_,
-             others := ?_, walMax := ?_ }
+             others := ?_, walMax := ?_, manLe := h.manLe }
     · refine ⟨bs ++ [{ start := p.s.lastSeq + 1, ops := ops }], ?_, ?_⟩
       · show lookup (update p.d.wals p.c.wal _) p.c.wal = _
         rw [lookup_update, if_pos rfl]
@@ -197,11 +200,8 @@ theorem rel_createWal {p : PState} (h : Rel p) (w : Nat) (hw : ∀ x ∈ p.d.wal
     exact hw x hx
   · rw [apply_createWal]
     refine { inv := rotate_inv' h.inv hs, wf := ⟨h.wf.1, nodup_update _ _ _ h.wf.2.1, h.wf.2.2⟩,
-             cur := h.cur, edits := ?_, tables := h.tables, walMem := ?_, walImm := ?_,
-             others := ?_, walMax := ?_ }
-    · obtain ⟨es, he, hwn, hv⟩ := h.edits
-      refine ⟨es, he, ?_, hv⟩
-      rw [hwn]; simp [Ctx.w0, hcn]
+             cur := h.cur, edits := h.edits, tables := h.tables, walMem := ?_, walImm := ?_,
+             others := ?_, walMax := ?_, manLe := ?_ }
     · refine ⟨[], ?_, ?_⟩
       · show lookup (update p.d.wals w []) w = _
         rw [lookup_update, if_pos rfl]
@@ -215,14 +215,15 @@ theorem rel_createWal {p : PState} (h : Rel p) (w : Nat) (hw : ∀ x ∈ p.d.wal
       · rcases h.others x hx with h1 | h1 | h1 | h1
         · exact Or.inr (Or.inl (by rw [h1]))
         · rw [hcn] at h1; cases h1
-        · right; right; left
-          have : p.c.w0 = p.c.wal := by simp [Ctx.w0, hcn]
-          show x.1 < (some p.c.wal).getD w
-          simp; omega
+        · exact Or.inr (Or.inr (Or.inl h1))
         · exact Or.inr (Or.inr (Or.inr h1))
     · intro x hx
       rcases mem_update hx with hx | hx
       · left; show x.1 ≤ w; omega
       · have := hw x hx; left; show x.1 ≤ w; omega
+    · have := h.manLe
+      simp only [Ctx.w0, hcn, Option.getD_none] at this
+      show p.c.manWal ≤ (some p.c.wal).getD w
+      simpa using this
 
 end Rain.Persist.Lemmas
